@@ -17,7 +17,8 @@ body:
   {"form": "sse",   "events": [ev, ...], "eols": [bool, ...], "tail": "full"|"noblank"|"noeol"}
   optional: "cut": true (truncated to half its bytes), "bad": "lead"|"instr" (non-UTF-8 byte
   in front of the body / inside a string value)
-ev: {"name": None|str, "data": [line, ...], "nc": choice, "dc": [choice, ...], "msg": m|None}
+ev: {"name": None|str, "data": [line, ...], "nc": choice, "dc": [choice, ...], "msg": m|None, "after": [ignored, ...]}
+    data == [] is a data-less event (keep-alive): it dispatches nothing and resets the event type
 choice: {"sp": bool, "before": [{"c": body} | {"id": v, "sp": bool} | {"retry": v, "sp": bool}]}
 """
 from __future__ import annotations
@@ -115,6 +116,7 @@ def sse_lines(events):
         dc = list(e.get("dc") or [])
         for k, d in enumerate(e["data"]):
             out += _field("data", dc[k] if k < len(dc) else DFLT, d)
+        out += [_ignored_line(g) for g in e.get("after") or []]
         out.append("")
     return out
 
@@ -249,6 +251,37 @@ def raw_event(data, name=None):
     return {"name": name, "data": [data], "nc": dict(DFLT), "dc": [dict(DFLT)], "msg": None}
 
 
+def bare_event(name=None, nsp=True, before=(), after=()):
+    """an event without data lines: typed keep-alive, comment-only event, or just a blank line"""
+    return {"name": name, "data": [], "nc": {"sp": nsp, "before": list(before)}, "dc": [], "msg": None, "after": list(after)}
+
+
+# kinds of events a stream may mix, in any order (Mu/Mt carry the JSON-RPC messages)
+EVENT_KINDS = ["Mu", "Mt", "Td", "Tn", "Co", "Bl"]
+
+
+def mixed_body(word, msgs, **kw):
+    """an SSE body whose events follow `word` over EVENT_KINDS: Mu = message event without event
+    field, Mt = `event: message`, Td = typed non-message event with data, Tn = typed event without
+    data, Co = comment-only event, Bl = extra blank line.  The k-th M event carries msgs[k]."""
+    evs, k = [], 0
+    for j, w in enumerate(word):
+        if w in ("Mu", "Mt"):
+            if k >= len(msgs):
+                continue
+            evs.append(sse_event(msgs[k], name=None if w == "Mu" else "message"))
+            k += 1
+        elif w == "Td":
+            evs.append(raw_event(["keepalive", "{}", "{\"jsonrpc\":\"2.0\",\"method\":\"not/for/you\"}"][j % 3], ["ping", "keepalive", "endpoint"][j % 3]))
+        elif w == "Tn":
+            evs.append(bare_event(["ping", "keepalive", "x"][j % 3], nsp=bool(j % 2), after=[{"c": "ka"}] if j % 3 == 2 else []))
+        elif w == "Co":
+            evs.append(bare_event(None, after=[{"c": " keep-alive"}] + ([{"retry": "5", "sp": True}] if j % 2 else [])))
+        elif w == "Bl":
+            evs.append(bare_event(None))
+    return {"form": "sse", "events": evs, "eols": kw.get("eols", []), "tail": kw.get("tail", "full")}
+
+
 def sse_body(msgs, **enc):
     eols = enc.pop("eols", [])
     tail = enc.pop("tail", "full")
@@ -363,6 +396,20 @@ def singles():
                 for bclass in ("response", "notifs+response"):
                     n += 1
                     out.append(mkcase([mkreq(rid, response_b(status, ct, body_for(form, content(bclass, rid, f"x{n}"))))]))
+    # SSE streams mixing message events with typed / data-less / comment-only events, in every order
+    for L in (1, 2, 3):
+        for word in itertools.product(EVENT_KINDS, repeat=L):
+            nm = sum(1 for w in word if w in ("Mu", "Mt"))
+            n += 1
+            rid = REQ_IDS[n % 2] if n % 7 else None
+            tag = f"k{n}"
+            msgs = [notif(f"{tag}-n{j}") for j in range(max(0, nm - 1))]
+            if nm:
+                msgs.append(result(rid, tag) if rid is not None else notif(f"{tag}-last"))
+            ct = ["sse", "sse", "sse", "absent", "other"][n % 5] if word[0] in ("Mu", "Mt", "Td") else "sse"
+            out.append(mkcase([mkreq(rid, response_b([200, 200, 202][n % 3], ct,
+                                                     mixed_body(word, msgs, eols=[[], [True] * 16][n % 2],
+                                                                tail=["full", "noblank", "noeol"][n % 3])))]))
     for exc in ("connect", "read_timeout", "protocol", "asyncio_timeout"):
         for rid in REQ_IDS:
             out.append(mkcase([mkreq(rid, {"exc": exc})]))
@@ -399,7 +446,16 @@ def sse_encodings(stride=1):
         before = COMMENTS[bi]
         enc = dict(name=name, nsp=nsp, dsp=dsp, split=split, eols=eols, tail=tail,
                    before_name=before if n % 2 else [], before_data=before if not n % 2 or name is None else [])
-        out.append(mkcase([mkreq(rid, response_b(200, "sse", sse_body(content(bclass, rid, tag), **enc)))]))
+        body = sse_body(content(bclass, rid, tag), **enc)
+        ka = n % 4   # 0: none; otherwise an event without JSON-RPC content somewhere in the stream
+        if ka == 1:
+            body["events"].insert(len(body["events"]) - 1, bare_event("ping", nsp=nsp, before=before if not n % 3 else []))
+        elif ka == 2:
+            body["events"].insert(0, raw_event("keepalive", "ping"))
+        elif ka == 3:
+            body["events"].insert(len(body["events"]) - 1, bare_event(None, after=[{"c": " ka"}]))
+            body["events"].insert(0, bare_event("keepalive"))
+        out.append(mkcase([mkreq(rid, response_b(200, "sse", body))]))
     return out
 
 
@@ -424,6 +480,9 @@ def alphabet():
     A.append(lambda r, t: response_b(404, "json", body_for("json", content("error", r, t)), "sess-X"))
     A.append(lambda r, t: response_b(500, "other", {"form": "text", "text": "boom"}))
     A.append(lambda r, t: response_b(301, "absent", {"form": "empty"}, "sess-F"))
+    A.append(lambda r, t: response_b(200, "sse", mixed_body(("Tn", "Mu"), content("response", r, t))))
+    A.append(lambda r, t: response_b(200, "sse", mixed_body(("Mt", "Tn", "Mu"), [notif(t + "-n")] + content("response", r, t)), "sess-H"))
+    A.append(lambda r, t: response_b(200, "sse", mixed_body(("Td", "Co", "Mu", "Bl"), content("error", r, t), eols=[True] * 16, tail="noeol")))
     A.append(lambda r, t: response_b(404, "json", body_for("json", content("error-null-id", r, t)), "sess-Y"))
     A.append(lambda r, t: response_b(500, "json", body_for("json", content("error-foreign-id", r, t))))
     A.append(lambda r, t: response_b(400, "json", body_for("json", content("wrong-id", r, t))))
@@ -506,6 +565,10 @@ def random_single(rng, k):
             e["nc"] = random_choice(rng)
             e["dc"] = [random_choice(rng) for _ in e["data"]]
             events.append(e)
+            if rng.random() < 0.2:
+                events.insert(rng.randrange(len(events) + 1),
+                              bare_event(rng.choice([None, "ping", "keepalive", "message"]), nsp=rng.random() < 0.5,
+                                         before=random_choice(rng)["before"], after=random_choice(rng)["before"]))
             if rng.random() < 0.15:
                 events.append(raw_event(rng.choice(["keepalive", "[1,2]", "{not json"]), rng.choice(["ping", None, "message"])))
         eols = [rng.random() < 0.5 for _ in range(rng.randrange(0, 12))]
@@ -536,6 +599,8 @@ def _simpler_body(body):
             cands = []
             if len(e["data"]) > 1:
                 cands.append(dict(e, data=["".join(e["data"])], dc=e["dc"][:1]))
+            if e.get("after"):
+                cands.append(dict(e, after=[]))
             if e["nc"].get("before"):
                 cands.append(dict(e, nc=dict(e["nc"], before=[])))
             if any(c.get("before") for c in e["dc"]):
